@@ -122,6 +122,38 @@ def head_call(v):
             return None, names
 
 
+ADAPTER_NAMES = ("branch", "map_err", "ok_or_else", "ok_or", "map", "into", "from", "from_residual", "as_ref", "as_mut", "ok", "err")
+
+
+def source_call(v):
+    """(callee key, opt2res?) of the fallible call a tested value was derived from, looking through discr, payload projections
+    (`<Ok>.0`, `?` payloads) and the result adapters (`.map_err(f)`, `.ok_or_else(f)`, Try::branch): the call whose outcome -
+    or whose outcome's payload - the test decides. opt2res? is True when the tested level itself went through ok_or / ok_or_else
+    (the test's Ok/Err then stand for the Option's Some/None). A test on any other field of the result gives (None, False)."""
+    flip = False
+    payload = False
+    while True:
+        k = v[0]
+        if k == "discr":
+            v = v[1]
+        elif k == "proj":
+            if any(not (n.startswith("<") and n.endswith(">")) and n not in (".0", "0") for n in v[2]):
+                return None, False
+            payload = True
+            v = v[1]
+        elif k in ("okval", "residual", "errconv"):
+            payload = True
+            v = v[1]
+        elif k == "call" and short(v[1]) in ADAPTER_NAMES and v[1].startswith(("core::", "<core::", "<T as core::", "<U as core::")) and v[2]:
+            if short(v[1]) in ("ok_or_else", "ok_or") and not payload:
+                flip = True
+            v = v[2][0]
+        elif k == "call":
+            return v[1], flip
+        else:
+            return None, False
+
+
 def subvalues(v):
     yield v
     k = v[0]
@@ -170,6 +202,24 @@ class Path:
                 out.append((names, t[2], t))
         return out
 
+    def outcomes(self, *callee_suffixes):
+        """Normalised chain of decisions (Ok/Err/Some/None/Ready/Pending/<payload variant>..) this path made about the result of
+        a call to one of the callees and its payloads, whether it was taken apart by `?` (Continue/Break), through
+        `.map_err(..)` / `.ok_or_else(..)` or by an explicit match: `match f() { Ok(Some(x)) => .. }` and `match f()? { Some(x) => .. }`
+        both give ['Ok', 'Some']."""
+        out = []
+        for t in self.tests:
+            if t[3][0] != "discr":
+                continue
+            ck, flip = source_call(t[3])
+            if not ck or not any(ck == s or ck.endswith(s) for s in callee_suffixes):
+                continue
+            lab = {"Continue": "Ok", "Break": "Err"}.get(t[2], t[2])
+            if flip:
+                lab = {"Ok": "Some", "Err": "None"}.get(lab, lab)
+            out.append(lab)
+        return out
+
     def calls(self, *names):
         out = []
         for e in self.events:
@@ -203,7 +253,7 @@ class Path:
             ck = flow.into_to_from(t)
             if ck not in ADAPTERS:
                 continue
-            cl = [a for a in argv[1:] if a[0] == "closure"]
+            cl = [a for a in argv[1:] if a[0] in ("closure", "fn")]     # a named fn handed to an adapter is a closure with a name
             if not cl:
                 continue
             trig = ADAPTERS[ck][1]
@@ -224,7 +274,20 @@ class Path:
         return [e for e in self.events if e[0] == "store"]
 
     def ret_shape(self, depth=4):
-        return shape(self.ret, depth) if self.ret is not None else self.end
+        if self.ret is None:
+            return self.end
+        v = self.ret
+        if v[0] in ("residual", "errconv"):
+            # `Err(e)?` (e.g. an `Err(..)` returned by a helper and propagated) is `return Err(e)`
+            inner, e = v[1], None
+            if inner[0] == "agg" and inner[2] == "Err":
+                e = inner
+            elif inner[0] == "agg" and inner[2] == "Ready" and inner[3] and inner[3][0][0] == "agg" and inner[3][0][2] == "Err":
+                e = inner[3][0]
+            if e is not None:
+                s = shape(e, depth)
+                return "Ready(%s)" % s if self.body.locals[0]["ty"].startswith("core::task::poll::Poll<") else s
+        return shape(v, depth)
 
     def describe(self, maxlen=60):
         b = self.body
@@ -277,7 +340,9 @@ def shape(v, depth=4):
 
 class Explorer:
     def __init__(self, prog, body, max_paths=30000, max_visits=2, code_prefix="h3::error::codes::Code::",
-                 follow_yield_drop=False):
+                 follow_yield_drop=False, depth=0, bb_base=0):
+        self.depth = depth          # inlining depth (helpers unknown to the rule vocabulary are explored inline)
+        self.bb_base = bb_base      # block ids / locals of an inlined frame are shifted so that they stay distinct
         self.prog = prog
         self.body = body
         self.max_paths = max_paths
@@ -326,7 +391,7 @@ class Explorer:
         elif 1 <= l <= self.body.arg_count:
             v = ("param", l, ())
         else:
-            v = ("local", l, ())
+            v = ("local", l + self.bb_base, ())
         pending_variant = None
         for e in place.proj:
             if e == "*":
@@ -555,28 +620,29 @@ class Explorer:
                 return
             visits = dict(visits)
             visits[bb] = visits.get(bb, 0) + 1
-            p.blocks.append(bb)
+            rb = bb + self.bb_base      # recorded block id (distinct per inlined frame)
+            p.blocks.append(rb)
             blk = body.blocks[bb]
             env = p.env
             for s in blk.stmts:
                 if s.s == "assign":
                     val = self.eval_rvalue(env, s.rv)
                     if val[0] == "closure":
-                        p.events.append(("closure", bb, val[1]))
+                        p.events.append(("closure", rb, val[1]))
                     elif val[0] == "agg" and val[2] is not None and val[1] not in STD_ENUMS:
-                        self._scan_codes(p, bb, val[3], "agg:%s::%s" % (val[1].rsplit("::", 1)[-1], val[2]))
+                        self._scan_codes(p, rb, val[3], "agg:%s::%s" % (val[1].rsplit("::", 1)[-1], val[2]))
                     if s.place.is_local():
                         env[s.place.local] = val
                     else:
                         tgt = self.eval_place(env, s.place)
-                        p.events.append(("store", bb, s.place, val, tgt, s))
+                        p.events.append(("store", rb, s.place, val, tgt, s))
                         self.invalidate(p.cons, vfmt(tgt))
                         base = env.get(s.place.local)
                         if base is not None and base[0] == "agg" and "*" not in s.place.proj:
                             # in-place update of a locally built aggregate: forget its shape
-                            env[s.place.local] = ("local", s.place.local, ())
+                            env[s.place.local] = ("local", s.place.local + self.bb_base, ())
                 elif s.s == "setdiscr":
-                    p.events.append(("store", bb, s.place, ("variant", s.vidx), self.eval_place(env, s.place), s))
+                    p.events.append(("store", rb, s.place, ("variant", s.vidx), self.eval_place(env, s.place), s))
             t = blk.term
             k = t.t
             if k == "return":
@@ -596,19 +662,19 @@ class Explorer:
                 bb = t.target
                 continue
             if k == "drop":
-                p.events.append(("drop", bb, t.place, self.eval_place(env, t.place)))
+                p.events.append(("drop", rb, t.place, self.eval_place(env, t.place)))
                 p.labels.append("")
                 bb = t.target
                 continue
             if k == "assert":
-                p.events.append(("assert", bb, t, (self.eval_operand(env, t.a) if t.a is not None else None,
+                p.events.append(("assert", rb, t, (self.eval_operand(env, t.a) if t.a is not None else None,
                                                    self.eval_operand(env, t.b) if t.b is not None else None)))
                 p.labels.append("")
                 bb = t.target
                 continue
             if k == "yield":
-                p.events.append(("yield", bb, t))
-                env[t.resume_arg.local] = ("resume_arg", bb)
+                p.events.append(("yield", rb, t))
+                env[t.resume_arg.local] = ("resume_arg", rb)
                 if self.follow_yield_drop and t.drop is not None and t.drop >= 0 and not body.blocks[t.drop].cleanup:
                     q = self._fork(p)
                     q.labels.append("yield_drop")
@@ -622,17 +688,17 @@ class Explorer:
             if k == "call":
                 argv = tuple(self.eval_operand(env, a) for a in t.args)
                 ck = flow.into_to_from(t)
-                self._scan_codes(p, bb, argv, short(ck))
+                self._scan_codes(p, rb, argv, short(ck))
                 if flow.is_transparent(t) and argv:
                     val = argv[0]
                 elif ck.endswith(FROM_RESIDUAL) and argv and argv[0][0] == "residual":
                     val = ("errconv", argv[0][1])
                 else:
-                    val = ("call", ck, argv, bb)
+                    val = ("call", ck, argv, rb)
                 kv = None
                 if t.cname in ("unwrap", "expect", "unwrap_unchecked") and argv:
                     kv = self.known_variant(argv[0], p.cons)
-                p.events.append(("call", bb, t, argv, kv))
+                p.events.append(("call", rb, t, argv, kv))
                 # a call that receives &mut into a param may change its fields
                 if not flow.is_transparent(t):
                     for a, av in zip(t.args, argv):
@@ -643,7 +709,7 @@ class Explorer:
                 if t.dest.is_local():
                     env[t.dest.local] = val
                 else:
-                    p.events.append(("store", bb, t.dest, val, self.eval_place(env, t.dest), t))
+                    p.events.append(("store", rb, t.dest, val, self.eval_place(env, t.dest), t))
                 if t.target is None or t.target < 0:
                     p.end = "diverge"
                     out.append(p)
@@ -664,19 +730,19 @@ class Explorer:
                     lab, tb, upd = succs[0]
                     upd(p.cons)
                     p.labels.append(lab)
-                    p.tests.append((bb, vtxt, lab, v, expl)); p.events.append(("test", bb, len(p.tests) - 1))
+                    p.tests.append((rb, vtxt, lab, v, expl)); p.events.append(("test", rb, len(p.tests) - 1))
                     bb = tb
                     continue
                 for lab, tb, upd in succs[1:]:
                     q = self._fork(p)
                     upd(q.cons)
                     q.labels.append(lab)
-                    q.tests.append((bb, vtxt, lab, v, expl)); q.events.append(("test", bb, len(q.tests) - 1))
+                    q.tests.append((rb, vtxt, lab, v, expl)); q.events.append(("test", rb, len(q.tests) - 1))
                     self._walk(tb, q, visits, out)
                 lab, tb, upd = succs[0]
                 upd(p.cons)
                 p.labels.append(lab)
-                p.tests.append((bb, vtxt, lab, v, expl)); p.events.append(("test", bb, len(p.tests) - 1))
+                p.tests.append((rb, vtxt, lab, v, expl)); p.events.append(("test", rb, len(p.tests) - 1))
                 bb = tb
                 continue
             raise RuntimeError("unknown terminator " + k)
